@@ -410,14 +410,29 @@ QByteArray QXmppDiscoveryIq::verificationString() const
             for (const auto &key : keys) {
                 const QXmppDataForm::Field field = fieldMap.value(key);
                 S += key + u'<';
-                if (field.value().canConvert<QStringList>()) {
-                    QStringList list = field.value().toStringList();
-                    std::sort(list.begin(), list.end(), octetLessThan);
-                    S += list.join(u'<');
-                } else {
-                    S += field.value().toString();
+
+                // "For each <value/> element, append the XML character data, followed by '<'":
+                // hash exactly the values QXmppDataForm::toXml() writes. An empty value of a
+                // single-valued field and a multi-valued field without values have no <value/>.
+                QStringList values;
+                switch (field.type()) {
+                case QXmppDataForm::Field::BooleanField:
+                    values << (field.value().toBool() ? u"1"_s : u"0"_s);
+                    break;
+                case QXmppDataForm::Field::ListMultiField:
+                case QXmppDataForm::Field::JidMultiField:
+                case QXmppDataForm::Field::TextMultiField:
+                    values = field.value().toStringList();
+                    break;
+                default:
+                    if (const auto value = field.value().toString(); !value.isEmpty()) {
+                        values << value;
+                    }
                 }
-                S += u'<';
+                std::sort(values.begin(), values.end(), octetLessThan);
+                for (const auto &value : std::as_const(values)) {
+                    S += value + u'<';
+                }
             }
         } else {
             qWarning("QXmppDiscoveryIq form does not contain FORM_TYPE");
